@@ -11,14 +11,14 @@ import (
 	"verif/harness/sm"
 )
 
-const ruleC19 = "model-based state machine over collections of JSON-representable documents (numbers within 2^53, valid UTF-8, nested maps/slices, times from 1970 with whole-minute zone offsets), with and without indexes on the source: ExportCollection followed (immediately or after further writes) by ImportCollection of that file under a new or an existing name, imports of generated files (well-formed, with duplicate or malformed ids, documents without _id) and of ill-formed, wrong-shaped, truncated, empty or missing files, exports of missing collections or to unwritable paths. Oracle: the imported collection holds exactly the JSON image of the source at export time (same count, _ids and field sets, numbers numerically equal, times as RFC 3339 text); after every step - in particular after every failed import/export - every collection equals the model (contents, index list, Count) and the raw key space passes the audit, so sources and bystanders are untouched. An evaluation is one export or import step; non-trivial when the documents involved contain nesting, a time or a number, or the step is a failure path; distinct = distinct (operation, model state)."
+const ruleC19 = "model-based state machine over collections of JSON-representable documents (numbers within 2^53, valid UTF-8, nested maps/slices, times from 1970 with whole-minute zone offsets, occasionally a top-level field name containing a dot), with and without indexes on the source: ExportCollection followed (immediately or after further writes) by ImportCollection of that file under a new or an existing name, imports of generated files (well-formed, with duplicate or malformed ids, documents without _id) and of ill-formed, wrong-shaped, truncated, empty or missing files, exports of missing collections or to unwritable paths. Oracle: the imported collection holds exactly the JSON image of the source at export time (same count, _ids and field sets, numbers numerically equal, times as RFC 3339 text); after every step - in particular after every failed import/export - every collection equals the model (contents, index list, Count) and the raw key space passes the audit, so sources and bystanders are untouched. An evaluation is one export or import step; non-trivial when the documents involved contain nesting, a time or a number, or the step is a failure path; distinct = distinct (operation, model state)."
 
 func c19Profile() *sm.Profile {
 	return &sm.Profile{
 		Name:        "c19",
 		Colls:       []string{"src", "dst", "dst2", "other"},
 		IndexFields: []string{"x", "y", "n.a", "t"},
-		Doc:         gen.DocCfg{Val: gen.ValCfg{MaxDepth: 2, JSONSafe: true, MinuteTZ: true}, PAbsent: 4},
+		Doc:         gen.DocCfg{Val: gen.ValCfg{MaxDepth: 2, JSONSafe: true, MinuteTZ: true}, PAbsent: 4, DottedKey: true},
 		IdPool:      16,
 		MaxDocs:     8,
 		BadIds:      true,
